@@ -61,15 +61,13 @@ impl<I: SelectSyscall> SelectSyscall for NioSelectSyscall<I> {
             u64::MAX
         } else {
             let (sec, usec) = unsafe { ((*timeout).tv_sec, (*timeout).tv_usec) };
-            match (u64::try_from(sec), u64::try_from(usec)) {
-                (Ok(sec), Ok(usec)) => crate::common::get_timeout_time(
-                    Duration::from_secs(sec).saturating_add(Duration::from_micros(usec)),
-                ),
-                _ => {
-                    crate::syscall::set_errno(libc::EINVAL);
-                    return -1;
-                }
-            }
+            let (Ok(sec), Ok(usec)) = (u64::try_from(sec), u64::try_from(usec)) else {
+                crate::syscall::set_errno(libc::EINVAL);
+                return -1;
+            };
+            crate::common::get_timeout_time(
+                Duration::from_secs(sec).saturating_add(Duration::from_micros(usec)),
+            )
         };
         let mut o = timeval {
             tv_sec: 0,
